@@ -40,7 +40,7 @@ def fold(rng, line, nl):
 def gen_calendar(rng, tidy=True):
     nl = rng.choice(["\n", "\r\n"])
     lines = ["BEGIN:VCALENDAR", "VERSION:2.0", "PRODID:-//x//y//EN"]
-    meth = rng.choice(["PUBLISH", "PUBLISH", "REQUEST", None, "CANCEL", "REPLY"])
+    meth = rng.choice(["PUBLISH", "PUBLISH", "REQUEST", None, "CANCEL", "REPLY", "ADD", "REFRESH", "COUNTER", "BOGUS"])
     if meth:
         lines.append("METHOD:%s" % meth)
     if rng.random() < 0.3:
@@ -54,7 +54,7 @@ def gen_calendar(rng, tidy=True):
             ev.append("DTSTART:%s" % stamp(T0 + 10 + k))
         body = rng.sample(FIELDS, rng.randint(1, 8)) + rng.sample(RULES, rng.randint(0, 2))
         if meth == "REPLY":
-            body.append("REQUEST-STATUS:%s" % rng.choice(["2.0;Success", "5.1;Service unavailable"]))
+            body.append("REQUEST-STATUS:%s" % rng.choice(["2.0;Success", "5.1;Service unavailable", "3.1;Invalid property value"]))
         if rng.random() < 0.15:
             body.append("SUMMARY:" + "x" * rng.choice([200, 600, 900]))            # long but within the stash
         if rng.random() < 0.15:
@@ -119,6 +119,8 @@ def run(ctx):
     for i in range(ninputs):
         tidy = i % 3 != 2
         text, cls = gen_calendar(rng, tidy)
+        if tidy and rng.random() < 0.25:
+            text += gen_calendar(rng, True)[0]          # several calendars in one stream
         inputs.append((text, cls))
     for l in common.load_corpus("C10"):
         t = bytes.fromhex(l).decode("latin-1")
